@@ -132,6 +132,30 @@ def step (w : W) : Op → W × Out
   | .remove i => removeStruct w i
   | .map n p => mapPin w n p
 
+/-- the loop of `Solver.maps_all_pins` over `free_pins`: a pin that is already exposed is skipped; a pin whose own name is
+already a key of the mapping raises - the entries written so far stay, the loop writes as it goes; otherwise the pin is
+exposed under its own name -/
+def raiseLoop (nameOf : Pin → Nat) : List Pin → List (Nat × Pin) → List (Nat × Pin) × Out
+  | [], m => (m, .ok)
+  | p :: ps, m =>
+    if m.any (·.2 == p) then raiseLoop nameOf ps m
+    else if m.any (·.1 == nameOf p) then (m, .exception)
+    else raiseLoop nameOf ps (m ++ [(nameOf p, p)])
+
+/-- `Solver.maps_all_pins` (`raise_pins`); `nameOf` gives the id of a pin's own name (pins of different structures may share it) -/
+def raiseAll (nameOf : Pin → Nat) (w : W) : W × Out :=
+  let r := raiseLoop nameOf w.free w.mapping
+  ({ w with mapping := r.1 }, r.2)
+
+/-- the wiring operations plus raise-all -/
+inductive OpX
+  | base (op : Op) | raise
+deriving DecidableEq, Repr
+
+def stepX (nameOf : Pin → Nat) (w : W) : OpX → W × Out
+  | .base op => step w op
+  | .raise => raiseAll nameOf w
+
 /-- an empty solver over a heap of fresh structure objects with the given pin counts -/
 def init (pinCounts : List Nat) : W :=
   { heap := pinCounts.zipIdx.map fun nk => (nk.2, { pins := List.range nk.1, conn := [], connTo := [] }),
